@@ -21,6 +21,8 @@ import (
 	"path/filepath"
 	"strconv"
 	"strings"
+	"sync"
+	"sync/atomic"
 	"time"
 
 	"github.com/valyala/fastjson/fastfloat"
@@ -64,6 +66,7 @@ func runSource(ctx context.Context, cr creator, path string, options map[string]
 			vals := make([]octosql.Value, len(record.Values))
 			copy(vals, record.Values)
 			recs = append(recs, vals)
+			atomic.AddInt64(&producedCount, 1)
 			return nil
 		},
 		func(pctx execution.ProduceContext, msg execution.MetadataMessage) error { return nil })
@@ -333,6 +336,7 @@ type jsonResult struct {
 	LogBad   string `json:"log_bad"`
 	Procs    int    `json:"procs"`
 	Delay    uint64 `json:"delay"`
+	Pair     bool   `json:"pair"` // two files read concurrently
 }
 
 // jsonBatch runs in a child process (GOMAXPROCS fixed by the parent through the environment, because
@@ -386,22 +390,93 @@ func jsonBatch(seed int64, procs int, ns []int, dir string) []jsonResult {
 		}
 		// reference parse
 		if err == nil && p == nil {
-			if len(recs) != n {
-				res.Mismatch = fmt.Sprintf("%d records for %d lines", len(recs), n)
+			res.Mismatch = verifyJSON(schema, recs, lines)
+		}
+		out = append(out, res)
+	}
+	return out
+}
+
+// verifyJSON compares the records with encoding/json's reading of the lines, field by field, in order.
+func verifyJSON(schema physical.Schema, recs [][]octosql.Value, lines []string) string {
+	if len(recs) != len(lines) {
+		return fmt.Sprintf("%d records for %d lines", len(recs), len(lines))
+	}
+	for i := range lines {
+		var ref map[string]interface{}
+		if e := json.Unmarshal([]byte(lines[i]), &ref); e != nil {
+			return "reference parser rejects generated line: " + e.Error()
+		}
+		if len(recs[i]) != len(schema.Fields) {
+			return fmt.Sprintf("record %d has %d values for %d fields", i, len(recs[i]), len(schema.Fields))
+		}
+		for fi, f := range schema.Fields {
+			val, ok := ref[f.Name]
+			if !refMatches(f.Type, recs[i][fi], val, ok) {
+				return fmt.Sprintf("record %d field %s = %s but line %d is %s", i, f.Name, recs[i][fi].String(), i, lines[i])
 			}
-			for i := 0; i < n && i < len(recs) && res.Mismatch == ""; i++ {
-				var ref map[string]interface{}
-				if e := json.Unmarshal([]byte(lines[i]), &ref); e != nil {
-					res.Mismatch = "reference parser rejects generated line: " + e.Error()
-					break
+		}
+	}
+	return ""
+}
+
+// a second family of lines with other keys and kinds, for reading two files with different schemas at once
+func genJSONLineB(r *lib.Rng, i int) string {
+	parts := []string{fmt.Sprintf("\"id\":\"row-%d\"", i), fmt.Sprintf("\"v\":%v", i%3 == 0)}
+	if r.Chance(2, 3) {
+		parts = append(parts, fmt.Sprintf("\"w\":[\"a%d\",\"b\"]", i))
+	}
+	if r.Chance(1, 2) {
+		parts = append(parts, fmt.Sprintf("\"i\":{\"deep\":%d}", i)) // same key as the other family, another kind
+	}
+	return "{" + strings.Join(parts, ",") + "}"
+}
+
+// jsonPairs reads two JSON files with different schemas concurrently (they share the global parser worker
+// pool), with seeded delays so that batches of the two files overtake each other; each must come out as
+// its own lines, in order.
+func jsonPairs(seed int64, procs int, dir string, pairs int) []jsonResult {
+	rng := lib.NewRng(seed ^ 0x5bd1e995)
+	var out []jsonResult
+	for pi := 0; pi < pairs; pi++ {
+		r := rng.Fork()
+		sizes := []int{65 + r.Intn(400), 65 + r.Intn(400)}
+		gens := []func(*lib.Rng, int) string{genJSONLine, genJSONLineB}
+		var lines [2][]string
+		var paths [2]string
+		for f := 0; f < 2; f++ {
+			for i := 0; i < sizes[f]; i++ {
+				lines[f] = append(lines[f], gens[f](r, i))
+			}
+			paths[f] = filepath.Join(dir, fmt.Sprintf("pair%d_%d_%d.json", procs, pi, f))
+			must(os.WriteFile(paths[f], []byte(strings.Join(lines[f], "\n")+"\n"), 0o644))
+		}
+		delay := r.U64() | 1 // slow, reordered batches
+		jsonds.VerifSetWorkerDelaySeed(delay)
+		var mism [2]string
+		var wg sync.WaitGroup
+		for f := 0; f < 2; f++ {
+			wg.Add(1)
+			go func(f int) {
+				defer wg.Done()
+				schema, recs, err, p := runSource(ctxWith(32*1024, 1024*1024), jsonds.Creator, paths[f], map[string]string{})
+				switch {
+				case p != nil:
+					mism[f] = fmt.Sprintf("panicked: %v", p)
+				case err != nil:
+					mism[f] = "failed: " + err.Error()
+				default:
+					mism[f] = verifyJSON(schema, recs, lines[f])
 				}
-				for fi, f := range schema.Fields {
-					val, ok := ref[f.Name]
-					if !refMatches(f.Type, recs[i][fi], val, ok) {
-						res.Mismatch = fmt.Sprintf("record %d field %s = %s but line %d is %s", i, f.Name, recs[i][fi].String(), i, lines[i])
-						break
-					}
-				}
+			}(f)
+		}
+		wg.Wait()
+		jsonds.VerifSetWorkerDelaySeed(0)
+		res := jsonResult{N: sizes[0] + sizes[1], Produced: sizes[0] + sizes[1], Procs: procs, Delay: delay, DonePos: 0, Pair: true}
+		for f := 0; f < 2; f++ {
+			os.Remove(paths[f])
+			if mism[f] != "" {
+				res.Mismatch = fmt.Sprintf("two files read concurrently, file %d of the pair: %s", f, mism[f])
 			}
 		}
 		out = append(out, res)
@@ -414,8 +489,14 @@ func jsonBatch(seed int64, procs int, ns []int, dir string) []jsonResult {
 type stdinPlan struct {
 	Previews [][]int `json:"previews"` // read request sizes
 	Final    []int   `json:"final"`    // read request sizes before draining with 512-byte reads
-	Mode     string  `json:"mode"`     // "raw" | "lines" | "json"
+	Mode     string  `json:"mode"`     // "raw" | "lines" | "json" | "jsonpause"
+	First    int     `json:"first"`    // jsonpause: lines written before the reader stalls
+	Rest     int     `json:"rest"`     // jsonpause: lines written after every handed-over batch has been produced
 }
+
+func pauseLine(j int) string { return fmt.Sprintf("{\"i\":%d,\"s\":\"row %d\"}", j, j) }
+
+var producedCount int64 // records handed to produce() by runSource in this process
 
 func stdinChild(planJSON string) {
 	var plan stdinPlan
@@ -453,6 +534,42 @@ func stdinChild(planJSON string) {
 		}
 		f.Close()
 		out["seen"] = hex.EncodeToString(seen)
+	case "jsonpause":
+		// A reader that stalls mid-stream: stdin is a pipe whose writer hands over the first lines, then blocks
+		// until every full batch of them has been produced (or 3 s), and only then writes the rest.
+		pr, pw, err := os.Pipe()
+		must(err)
+		os.Stdin = pr
+		go func() {
+			for j := 0; j < plan.First; j++ {
+				fmt.Fprintln(pw, pauseLine(j))
+			}
+			want := int64(plan.First / 64 * 64)
+			for deadline := time.Now().Add(3 * time.Second); atomic.LoadInt64(&producedCount) < want && time.Now().Before(deadline); {
+				time.Sleep(2 * time.Millisecond)
+			}
+			time.Sleep(40 * time.Millisecond)
+			for j := 0; j < plan.Rest; j++ {
+				fmt.Fprintln(pw, pauseLine(plan.First+j))
+			}
+			pw.Close()
+		}()
+		_, recs, rerr, p := runSource(ctx, jsonds.Creator, "stdin.json", map[string]string{})
+		var texts []string
+		for _, r := range recs {
+			var parts []string
+			for _, v := range r {
+				parts = append(parts, v.String())
+			}
+			texts = append(texts, strings.Join(parts, "\x1f"))
+		}
+		out["records"] = texts
+		if rerr != nil {
+			out["err"] = rerr.Error()
+		}
+		if p != nil {
+			out["panic"] = fmt.Sprint(p)
+		}
 	default:
 		cr := creator(linesds.Creator)
 		name := "stdin.lines"
@@ -780,7 +897,9 @@ func main() {
 			fmt.Sscan(a, &n)
 			ns = append(ns, n)
 		}
-		must(json.NewEncoder(os.Stdout).Encode(jsonBatch(seed, procs, ns, os.Args[4])))
+		results := jsonBatch(seed, procs, ns, os.Args[4])
+		results = append(results, jsonPairs(seed, procs, os.Args[4], 3)...)
+		must(json.NewEncoder(os.Stdout).Encode(results))
 		return
 	}
 	f := lib.ParseFlags()
@@ -855,6 +974,14 @@ func main() {
 			continue
 		}
 		for _, res := range results {
+			if res.Pair {
+				ci := cf.Add("CStdin ([], [], [], [])", map[string]interface{}{"kind": "json-two-files-concurrently", "lines": res.N, "procs": res.Procs, "delay_seed": res.Delay}, true)
+				cf.Count("json_concurrent_pairs")
+				if res.Mismatch != "" {
+					cf.Violation(ci, res.Mismatch, "")
+				}
+				continue
+			}
 			// model case: real batch size for small files, job granularity (one line per job) for big ones
 			nModel, batch := res.N, 64
 			if res.N > 400 {
@@ -891,6 +1018,41 @@ func main() {
 				cf.Violation(ci, "json source output differs from the reference parse: "+res.Mismatch, "")
 			case res.LogBad != "" || res.DonePos < 0:
 				cf.Violation(ci, "consumer log is not a run of the model's protocol: "+res.LogBad, "")
+			}
+		}
+	}
+
+	// stdin, a reader that stalls: (lines before the stall, lines after it) around the 64-line batch
+	for _, fr := range [][2]int{{64, 1}, {64, 64}, {130, 70}, {200, 200}, {128, 5}, {63, 10}} {
+		plan := stdinPlan{Mode: "jsonpause", First: fr[0], Rest: fr[1]}
+		out, err := runStdinChild(plan, nil, nil)
+		js := map[string]interface{}{"kind": "stdin-json-stalling-reader", "lines_before_stall": fr[0], "lines_after_stall": fr[1]}
+		ci := cf.Add("CStdin ([], [], [], [])", js, true)
+		cf.Count("stdin_json_stalling_reader")
+		if err != nil {
+			cf.Violation(ci, "stdin run with a stalling reader failed: "+err.Error(), "")
+			continue
+		}
+		if e, ok := out["err"]; ok {
+			cf.Violation(ci, fmt.Sprintf("json source over a stalling stdin failed: %v", e), "")
+			continue
+		}
+		var recs []string
+		if l, ok := out["records"].([]interface{}); ok {
+			for _, x := range l {
+				recs = append(recs, x.(string))
+			}
+		}
+		total := fr[0] + fr[1]
+		if len(recs) != total {
+			cf.Violation(ci, fmt.Sprintf("json source over stdin: the reader stalled after %d lines and then delivered %d more; %d records came out of %d", fr[0], fr[1], len(recs), total), "")
+			continue
+		}
+		for j := range recs {
+			want := fmt.Sprintf("%v\x1f'row %d'", octosql.NewFloat(float64(j)).String(), j)
+			if recs[j] != want {
+				cf.Violation(ci, fmt.Sprintf("json source over a stalling stdin: record %d is %q, expected %q", j, recs[j], want), "")
+				break
 			}
 		}
 	}
